@@ -238,13 +238,7 @@ static Opd pick_integral(int spec, u64 mask, bool fixed, i64 fixed_val) {   // i
     Opd o; o.k = pick_kind(spec);
     u64 mag = vf_u64(); bool neg = vf_u8() & 1;
     mag &= mask;
-    if (fixed) {
-        // NOT a literal: CBMC 6.11 folds the sign test of a propagated constant read back from the union's pointer-typed
-        // storage to "negative" (unsound rewrite); two inequalities pin the value without making it a symex constant
-        neg = fixed_val < 0;
-        const u64 want = neg ? (u64)(0 - fixed_val) : (u64)fixed_val;
-        mag = vf_u64(); vf_assume(mag <= want); vf_assume(mag >= want);
-    }
+    if (fixed) { neg = fixed_val < 0; mag = neg ? (u64)(0 - fixed_val) : (u64)fixed_val; }
     if (o.k == K_NAT) { vf_assume(!neg); o.b = mag; }
     else if (o.k == K_INT) { vf_assume(mag <= (u64)I64_MAX); o.b = neg ? (0ULL - mag) : mag; }
     else { vf_assume(mag < (1ULL << 53)); double d = (double)mag; o.b = d2b(neg ? -d : d); }
